@@ -8,6 +8,7 @@ package opts
 
 import (
 	"errors"
+	"fmt"
 
 	"github.com/verily-src/fhirpath-go/fhirpath/internal/expr"
 	"github.com/verily-src/fhirpath-go/fhirpath/internal/funcs"
@@ -51,7 +52,11 @@ func Transform[T any](callback func(cfg *T) error) Option[T] {
 // ApplyOptions applies all the options to the given configuration.
 func ApplyOptions[T any](cfg *T, opts ...Option[T]) (*T, error) {
 	var errs []error
-	for _, opt := range opts {
+	for i, opt := range opts {
+		if opt == nil {
+			errs = append(errs, fmt.Errorf("option %d is nil", i))
+			continue
+		}
 		errs = append(errs, opt.updateConfig(cfg))
 	}
 	return cfg, errors.Join(errs...)
